@@ -56,7 +56,8 @@ def evaluators(I, two_runs=False, twin=False):
             return -1.0 * clock[0]
 
         log1, log2 = os.path.join(d, "m.csv"), os.path.join(d, "o.csv")
-        me = MetricEvaluator(p1, {"m": metric, "w": metric2}, log=log1)
+        # a metric may be named like an attribute of the evaluator: subscripting still yields that metric's values
+        me = MetricEvaluator(p1, {"m": metric, "w": metric2, "last": lambda s, **kw: 7.0 * clock[0], "period": lambda s, **kw: 0.5 * clock[0]}, log=log1)
         oe = ObservableEvaluator(p3, [SigmaZ()], log=log2, num_samples=1)
         ocount = [0]
 
@@ -101,8 +102,16 @@ def evaluators(I, two_runs=False, twin=False):
         vals = [10.0 * (nprev + i + 1) for i in range(len(want))]
         if len(me) != len(want) or list(me.epochs) != want:
             return False, "MetricEvaluator acted at %s, expected %s" % (list(me.epochs), want)
-        if me.names != ["m", "w"] or list(me.m) != vals or list(me["m"]) != vals:
+        if me.names != ["m", "w", "last", "period"] or list(me.m) != vals or list(me["m"]) != vals:
             return False, "per-name arrays %s vs %s" % (list(me.m), vals)
+        try:
+            sub = [list(me["last"]), list(me["period"])]
+        except TypeError:
+            sub = [me["last"], me["period"]]
+        if sub != [[0.7 * v for v in vals], [0.05 * v for v in vals]] and sub != [[7.0 * (v / 10.0) for v in vals], [0.5 * (v / 10.0) for v in vals]]:
+            return False, "subscripting metrics named like attributes gives %r, expected the recorded values of 'last' / 'period'" % (sub,)
+        if want and (me.get_value("last") != 7.0 * (vals[-1] / 10.0) or me.period != q1):
+            return False, "get_value('last') %r / period attribute %r" % (me.get_value("last"), me.period)
         for i in range(-len(want), len(want)):
             if me.get_value("m", i) != vals[i]:
                 return False, "get_value('m', %d) = %r, expected %r" % (i, me.get_value("m", i), vals[i])
